@@ -405,6 +405,10 @@ func GenHistory(p GenParams) *rapid.Generator[[]Op] {
 						op.ID = pickID(t, si, "live")
 						op.Vec = genVec(t, cfg.Dim)
 						op.Why = "dup?"
+						if rapid.IntRange(0, 2).Draw(t, "dup-without-vector") == 0 {
+							op.Vec = nil // a vector-less add (zero-vector entity) of an id that is already there
+							op.Why = "dup-entity?"
+						}
 					case 1: // wrong dimension (only meaningful when the index has a live vector)
 						op.ID = pickID(t, si, "fresh")
 						op.Vec = genVec(t, cfg.Dim+1)
